@@ -22,6 +22,22 @@
 // configuration always equals the fresh-process default; (D) the package-level
 // defaults never change.
 //
+// Shared-option histories (second family): the options of a tuple S are
+// constructed ONCE (argument set 0) into one []opcua.Option slice and that very
+// slice / those very Option values are passed to every client of the history;
+// client i additionally gets its own, freshly constructed options E_i (argument
+// set 1 or 2) appended after them, so that E_i configures client i only.
+// Shapes: [S | S+E], [S+E | S], [S | S | S+E]. Oracle, the same statement: a
+// client built from S alone equals the fresh-process reference of S whenever it
+// is built (A); a client built from S+E equals a twin built at the start of the
+// history from freshly constructed, equal options (A'); nothing built later
+// changes any client or twin (B); (C) and (D) as above. This is the family in
+// which state captured by the closure an Option constructor returns (a token
+// allocated once per Option value instead of once per application, ...) becomes
+// visible. Objects the caller passes by pointer (the *uacp.Dialer of Dialer)
+// stay the caller's: writes other options make through that pointer are counted
+// but not judged.
+//
 // Every history starts from the initial state: the exported package-level
 // defaults are restored and (C)/(D) are re-checked before the next history; if
 // the initial state cannot be restored the shard stops (reported as capped).
@@ -493,6 +509,11 @@ func c23dumpOf(c *opcua.Client, err error) string { return string(newDumper().cl
 
 type c23hist struct {
 	Clients [][]string `json:"clients"` // option names per client, in construction order
+	// Shared, when present, makes this a shared-option history: these options are
+	// constructed once (argument set 0) into one []Option slice which is passed to
+	// every client; Clients[i] then lists the options constructed afresh (argument
+	// set 1+i%2) and appended after them for client i only.
+	Shared []string `json:"shared,omitempty"`
 }
 
 func histOf(alpha []c23opt, h []c23tuple) c23hist {
@@ -530,6 +551,7 @@ type c23runner struct {
 	refs    *c23refs
 	initACK [2]uacp.Acknowledge
 	atCr    [c23positions]*dumper
+	twin    [c23positions]*dumper
 	scratch *dumper
 }
 
@@ -537,6 +559,7 @@ func newC23runner(alpha []c23opt, refs *c23refs, initACK [2]uacp.Acknowledge) *c
 	r := &c23runner{alpha: alpha, refs: refs, initACK: initACK, scratch: newDumper()}
 	for i := range r.atCr {
 		r.atCr[i] = newDumper()
+		r.twin[i] = newDumper()
 	}
 	return r
 }
@@ -569,6 +592,14 @@ func (r *c23runner) run(h []c23tuple) (finds []c23finding, tainted bool) {
 			}
 		}
 	}
+	return r.epilogue(desc, finds)
+}
+
+// epilogue applies (C) and (D) after a history, restores the initial state for
+// the next history and verifies it.
+func (r *c23runner) epilogue(desc func() string, finds []c23finding) ([]c23finding, bool) {
+	refs := r.refs
+	tainted := false
 	fresh, err := opcua.NewClient(c23endpoint)
 	if got, want := r.scratch.client(fresh, err), refs.Cfg["0|"]; string(got) != want {
 		for _, dl := range diffDump(want, string(got)) {
@@ -593,6 +624,137 @@ func (r *c23runner) run(h []c23tuple) (finds []c23finding, tainted bool) {
 		}
 	}
 	return finds, tainted
+}
+
+// c23argset is the argument set of the options applied to client i only in a
+// shared-option history (the shared options use argument set 0).
+func c23argset(i int) int { return 1 + i%2 }
+
+// runShared executes one shared-option history: the options of S are constructed
+// once and passed, as the same slice, to every client; client i gets ex[i]
+// appended (constructed afresh). callerWrites counts the differences that lie in
+// an object the caller passed by pointer in a shared option (not judged).
+func (r *c23runner) runShared(S c23tuple, ex []c23tuple) (finds []c23finding, callerWrites int, tainted bool) {
+	alpha, refs := r.alpha, r.refs
+	*uacp.DefaultClientACK, *uacp.DefaultServerACK = r.initACK[0], r.initACK[1]
+	desc := func() string { b, _ := json.Marshal(sharedHistOf(alpha, S, ex)); return string(b) }
+	sharesDialer := false
+	for _, o := range S {
+		if alpha[o].Name == "Dialer" {
+			sharesDialer = true
+		}
+	}
+	// judged reports whether a differing leaf counts; a write through the caller's own *uacp.Dialer does not
+	judged := func(dl string) bool {
+		if sharesDialer && strings.HasPrefix(dl, "cfg>.dialer>") {
+			callerWrites++
+			return false
+		}
+		return true
+	}
+	fresh := func(t c23tuple, set int, into []opcua.Option) []opcua.Option {
+		for _, o := range t {
+			into = append(into, alpha[o].Make(set))
+		}
+		return into
+	}
+	var clients, twins [c23positions]*opcua.Client
+	var errs, twinErrs [c23positions]error
+	// twins first: the same options, every one constructed afresh
+	for i, e := range ex {
+		if len(e) == 0 {
+			continue
+		}
+		twins[i], twinErrs[i] = opcua.NewClient(c23endpoint, fresh(e, c23argset(i), fresh(S, 0, nil))...)
+		r.twin[i].client(twins[i], twinErrs[i])
+	}
+	shared := fresh(S, 0, make([]opcua.Option, 0, len(S)))
+	for i, e := range ex {
+		opts := shared // the very same slice
+		if len(e) > 0 {
+			opts = fresh(e, c23argset(i), shared[:len(shared):len(shared)])
+		}
+		clients[i], errs[i] = opcua.NewClient(c23endpoint, opts...)
+		got := string(r.atCr[i].client(clients[i], errs[i]))
+		if len(e) == 0 {
+			if want := refs.Cfg["0|"+S.key()]; got != want {
+				for _, dl := range diffDump(want, got) {
+					if !judged(dl) {
+						continue
+					}
+					finds = append(finds, c23finding{"options/later-client-differs-from-fresh-process/" + sharedObject(dl), func() string {
+						return fmt.Sprintf("history %s: client #%d (the shared options only) right after construction differs from what the same options give in a fresh process: %s", desc(), i, dl)
+					}})
+				}
+			}
+		} else if want := string(r.twin[i].buf); got != want {
+			for _, dl := range diffDump(want, got) {
+				if !judged(dl) {
+					continue
+				}
+				finds = append(finds, c23finding{"options/client-from-shared-options-differs-from-fresh-options/" + sharedObject(dl), func() string {
+					return fmt.Sprintf("history %s: client #%d right after construction differs from a client built (before any other) from freshly constructed options with the same arguments: %s", desc(), i, dl)
+				}})
+			}
+		}
+	}
+	for i, e := range ex {
+		if now := r.scratch.client(clients[i], errs[i]); !bytes.Equal(now, r.atCr[i].buf) {
+			for _, dl := range diffDump(string(r.atCr[i].buf), string(now)) {
+				if !judged(dl) {
+					continue
+				}
+				finds = append(finds, c23finding{"options/existing-client-changed/" + sharedObject(dl), func() string {
+					return fmt.Sprintf("history %s: configuration of client #%d changed after its construction: %s", desc(), i, dl)
+				}})
+			}
+		}
+		if len(e) == 0 {
+			continue
+		}
+		if now := r.scratch.client(twins[i], twinErrs[i]); !bytes.Equal(now, r.twin[i].buf) {
+			for _, dl := range diffDump(string(r.twin[i].buf), string(now)) {
+				finds = append(finds, c23finding{"options/existing-client-changed/" + sharedObject(dl), func() string {
+					return fmt.Sprintf("history %s: configuration of the client built first from freshly constructed options (twin of client #%d) changed after its construction: %s", desc(), i, dl)
+				}})
+			}
+		}
+	}
+	finds, tainted = r.epilogue(desc, finds)
+	return finds, callerWrites, tainted
+}
+
+func sharedHistOf(alpha []c23opt, S c23tuple, ex []c23tuple) c23hist {
+	h := histOf(alpha, ex)
+	h.Shared = histOf(alpha, []c23tuple{S}).Clients[0]
+	return h
+}
+
+// c23sharedHistories calls f for every shared-option history with the shared
+// tuple S (1 or 2 options): [S | S] and [S | S | S] without extras, and for every
+// extra tuple E the shape [S | S+E], where E has one option (quick) or 1..2
+// options with len(S)+len(E) <= 3 (thorough); the shapes [S+E | S] and
+// [S | S | S+E] are added for one shared plus one extra option (quick) or for
+// every S, E (thorough).
+func c23sharedHistories(tuples []c23tuple, S c23tuple, thorough bool, f func(ex []c23tuple) bool) bool {
+	none := c23tuple{}
+	if !f([]c23tuple{none, none}) || !f([]c23tuple{none, none, none}) {
+		return false
+	}
+	for _, e := range tuples {
+		if len(e) == 0 || len(S)+len(e) > 3 || (!thorough && len(e) > 1) {
+			continue
+		}
+		if !f([]c23tuple{none, e}) {
+			return false
+		}
+		if thorough || len(S)+len(e) == 2 {
+			if !f([]c23tuple{e, none}) || !f([]c23tuple{none, none, e}) {
+				return false
+			}
+		}
+	}
+	return true
 }
 
 // c23enumerate calls f for every history within the bound that starts with
@@ -869,7 +1031,19 @@ func runC23() {
 			}
 			h = append(h, t)
 		}
-		finds, tainted := newC23runner(alpha, refs, initACK).run(h)
+		var finds []c23finding
+		var tainted bool
+		if len(hrep.Shared) > 0 {
+			S := c23tuple{}
+			for _, n := range hrep.Shared {
+				S = append(S, idx[n])
+			}
+			var cw int
+			finds, cw, tainted = newC23runner(alpha, refs, initACK).runShared(S, h)
+			fmt.Printf("shared-option history: %d differences inside the caller's own shared *uacp.Dialer (not judged)\n", cw)
+		} else {
+			finds, tainted = newC23runner(alpha, refs, initACK).run(h)
+		}
 		fmt.Printf("replay %+v -> %d findings, initial state restorable=%v\n", hrep, len(finds), !tainted)
 		for _, f := range finds {
 			fmt.Printf("  %s\n    %s\n", f.sig, f.detail())
@@ -881,8 +1055,8 @@ func runC23() {
 		return
 	}
 
-	r.Rule(fmt.Sprintf("every history of 1..%d NewClient constructions in one process, each with 0..2 options (ordered, repetition allowed) from the %d exported Option constructors of config.go, with at most %v options in a history of 1/2/3 clients; option arguments are distinctive and depend on the client's position; reference = the same construction in a fresh process (the default client and every one-option tuple: one new process each; two-option tuples: batched in processes that restore and re-verify the fresh default state after every construction; %d reference constructions); non-trivial (counted in distinct_nontrivial) = a history of exactly 2 clients with at least 1 option (the smallest shape in which one client can influence another; longer histories extend these and are counted in evaluations only), distinct by the ordered option names of both clients", maxClients, len(alpha), limit[1:], maxClients*len(tuples)))
-	r.Assume("RequestIDSeed (RandomRequestID draws from math/rand) is compared as zero / non-zero only", "option argument objects are created afresh for every application, so sharing introduced by the caller is excluded", "between histories the exported defaults uacp.DefaultClientACK/DefaultServerACK are restored; the fresh-default configuration is re-checked against the fresh-process reference after every history that produced a finding")
+	r.Rule(fmt.Sprintf("every history of 1..%d NewClient constructions in one process, each with 0..2 options (ordered, repetition allowed) from the %d exported Option constructors of config.go, with at most %v options in a history of 1/2/3 clients; option arguments are distinctive and depend on the client's position; reference = the same construction in a fresh process (the default client and every one-option tuple: one new process each; two-option tuples: batched in processes that restore and re-verify the fresh default state after every construction; %d reference constructions); non-trivial (counted in distinct_nontrivial) = a history of exactly 2 clients with at least 1 option (the smallest shape in which one client can influence another; longer histories extend these and are counted in evaluations only), distinct by the ordered option names of both clients. Second family, shared-option histories: for every tuple S of 1..2 options the Option values are constructed once and passed as one []Option slice to 2 or 3 clients ([S | S], [S | S | S]); for every extra tuple E of %s, constructed afresh and appended for one client only: [S | S+E], and - %s - [S+E | S] and [S | S | S+E]; a client built from S alone is compared with the fresh-process reference of S, a client built from S+E with a twin built first from freshly constructed equal options, and every client and twin is compared before/after everything built later; every shared-option history counts as non-trivial, distinct by (S, extras per client)", maxClients, len(alpha), limit[1:], maxClients*len(tuples), map[bool]string{false: "one option", true: "1..2 options with len(S)+len(E) <= 3"}[evid.Thorough()], map[bool]string{false: "for one shared and one extra option", true: "for every S and E"}[evid.Thorough()]))
+	r.Assume("RequestIDSeed (RandomRequestID draws from math/rand) is compared as zero / non-zero only", "in the first family option argument objects are created afresh for every application, so sharing introduced by the caller is excluded; in the shared-option family the Option values themselves are shared and the only object the caller thereby shares by pointer is the *uacp.Dialer of Dialer: differences inside that dialer (DialTimeout, MaxMessageSize, ... write through the pointer the caller supplied) are counted in the outcomes and not judged", "between histories the exported defaults uacp.DefaultClientACK/DefaultServerACK are restored; the fresh-default configuration is re-checked against the fresh-process reference after every history that produced a finding")
 	deaths := evid.Sharded(r, 0, func(s evid.ShardInfo, w *evid.Run) {
 		quiet()
 		debug.SetGCPercent(800)
@@ -931,6 +1105,50 @@ func runC23() {
 				}
 				if tainted {
 					w.Capped(fmt.Sprintf("shard %d stopped: after history %v the initial state could not be restored (an unexported default was changed)", s.Index, histOf(alpha, h).Clients))
+					stopped = true
+					return false
+				}
+				return true
+			})
+		}
+		// second family: shared-option histories, sharded by the shared tuple
+		for si, S := range tuples {
+			if len(S) == 0 || stopped || !s.Mine(int64(len(tuples)+si)) {
+				continue
+			}
+			evid.Publish("shared options " + fmt.Sprint(histOf(alpha, []c23tuple{S}).Clients))
+			c23sharedHistories(tuples, S, evid.Thorough(), func(ex []c23tuple) bool {
+				histories++
+				finds, callerWrites, tainted := run.runShared(S, ex)
+				var hb bytes.Buffer
+				hb.WriteString("shared:" + S.key())
+				for _, t := range ex {
+					hb.WriteByte(';')
+					hb.WriteString(t.key())
+				}
+				w.DistinctHash(evid.H(hb.String()))
+				switch {
+				case len(finds) > 0:
+					withFindings++
+					w.Outcome("shared-option-history-with-a-finding")
+				case callerWrites > 0:
+					w.Outcome("shared-option-history-clean-except-writes-through-the-caller's-shared-dialer(not judged)")
+				default:
+					w.Outcome("shared-option-history-clean")
+					if histories%50000 == 1 {
+						w.Sample(sharedHistOf(alpha, S, ex))
+					}
+				}
+				for _, f := range finds {
+					if seenSig[f.sig] {
+						w.Violate(f.sig, "", nil)
+						continue
+					}
+					seenSig[f.sig] = true
+					w.Violate(f.sig, f.detail(), sharedHistOf(alpha, S, ex))
+				}
+				if tainted {
+					w.Capped(fmt.Sprintf("shard %d stopped: after shared-option history %v the initial state could not be restored (an unexported default was changed)", s.Index, sharedHistOf(alpha, S, ex)))
 					stopped = true
 					return false
 				}
